@@ -31,6 +31,9 @@ is_intv = z3.Function("is_intv", V, BOOL)
 is_callable = z3.Function("is_callable", V, BOOL)
 
 
+CURRENT_CTX = {"ctx": None}
+
+
 class Unsupported(Exception):
     """Construct outside the supported subset -> the function is *undecided*."""
 
@@ -160,6 +163,7 @@ class Ctx:
         self.cover = {}                # cover name -> reached?
         self.loop_vars = []            # indices of the enclosing symbolic loops
         self.undischarged = 0
+        CURRENT_CTX["ctx"] = self
         self._init_axioms()
 
     # -- symbols ---------------------------------------------------------------
@@ -590,7 +594,7 @@ class Enum:
         cache = ctx.__dict__.setdefault(Enum.cache_attr, {})
         k0 = z3.Int("k!enum")
         body = z3.simplify(z3.And(in_range(k0, n), zbool(g(k0))))
-        key = body.sexpr()
+        key = canon_str(body)
         if key in cache:
             e, pos, first = cache[key]
             if pos is None or (pos < len(ctx.assumptions) and ctx.assumptions[pos] is first):
@@ -600,8 +604,7 @@ class Enum:
         deps = [lv for lv in ctx.loop_vars if occurs(lv, body)]
         is_global = not deps
         saved = ctx.loop_vars
-        if is_global:
-            ctx.loop_vars = []
+        ctx.loop_vars = list(deps)
         try:
             e = Enum()
             e.n = n
@@ -612,38 +615,69 @@ class Enum:
             e.cb = ctx.fresh_fn("cntbelow", INT, INT)    # number of selected positions below i (0 <= i <= n)
         finally:
             ctx.loop_vars = saved
+        ax = e.axioms()
+        if not is_global:
+            # the predicate mentions indices of enclosing symbolic loops: the symbols are functions of those indices
+            # and the (definitional) axioms hold for every value of them
+            ax = [z3.ForAll(deps, a) for a in ax]
+        ctx.axioms.extend(ax)
+        cache[key] = (e, None, None)
+        Enum.link_equivalent(ctx, e, cache)
+        return e
+
+    def axioms(self):
+        """The defining axioms of the enumeration (cnt, idx, rk, cntbelow)."""
+        e, n, g = self, self.n, self.g
         j, j2, i = z3.Ints("j!ax j2!ax i!ax")
         nn = zint(n)
         gi = zbool(g(i))
         trig = [e.rk(i)] + [t for t in pattern_terms(gi, i)]
         ax = [
             e.cnt >= 0, e.cnt <= z3.If(nn >= 0, nn, 0),
-            z3.ForAll([j], z3.Implies(z3.And(0 <= j, j < e.cnt),
-                                      z3.And(0 <= e.idx(j), e.idx(j) < nn, zbool(g(e.idx(j))),
-                                             e.rk(e.idx(j)) == j)), patterns=[e.idx(j)]),
-            z3.ForAll([j, j2], z3.Implies(z3.And(0 <= j, j < j2, j2 < e.cnt), e.idx(j) < e.idx(j2)),
-                      patterns=[z3.MultiPattern(e.idx(j), e.idx(j2))]),
+            safe_forall([j], z3.Implies(z3.And(0 <= j, j < e.cnt),
+                                        z3.And(0 <= e.idx(j), e.idx(j) < nn, zbool(g(e.idx(j))),
+                                               e.rk(e.idx(j)) == j)), [e.idx(j)], None),
+            safe_forall([j, j2], z3.Implies(z3.And(0 <= j, j < j2, j2 < e.cnt), e.idx(j) < e.idx(j2)),
+                        [z3.MultiPattern(e.idx(j), e.idx(j2))], None),
             safe_forall([i], z3.Implies(z3.And(0 <= i, i < nn, gi),
                                         z3.And(0 <= e.rk(i), e.rk(i) < e.cnt, e.idx(e.rk(i)) == i)), trig, [e.rk(i)]),
             # monotone rank: number of selected positions below i
-            z3.ForAll([i, j], z3.Implies(z3.And(0 <= i, i < j, j < nn, zbool(g(i)), zbool(g(j))),
-                                         e.rk(i) < e.rk(j)),
-                      patterns=[z3.MultiPattern(e.rk(i), e.rk(j))]),
+            safe_forall([i, j], z3.Implies(z3.And(0 <= i, i < j, j < nn, zbool(g(i)), zbool(g(j))),
+                                           e.rk(i) < e.rk(j)),
+                        [z3.MultiPattern(e.rk(i), e.rk(j))], None),
             z3.Implies(z3.ForAll([i], z3.Implies(z3.And(0 <= i, i < nn), gi)),
                        z3.And(e.cnt == z3.If(nn >= 0, nn, 0),
-                              z3.ForAll([j], z3.Implies(z3.And(0 <= j, j < nn), e.idx(j) == j), patterns=[e.idx(j)]))),
+                              safe_forall([j], z3.Implies(z3.And(0 <= j, j < nn), e.idx(j) == j), [e.idx(j)], None))),
         ]
         ax += [e.cb(0) == 0, z3.Implies(nn >= 0, e.cb(nn) == e.cnt),
-               z3.ForAll([i], z3.Implies(z3.And(0 <= i, i < nn, gi), e.rk(i) == e.cb(i)), patterns=[e.rk(i)])]
-        if is_global:
-            ctx.axioms.extend(ax)
-            cache[key] = (e, None, None)
-        else:
-            pos = len(ctx.assumptions)
-            ctx.assumptions.extend(ax)
-            cache[key] = (e, pos, ax[0])
-        Enum.link_equivalent(ctx, e, cache)
-        return e
+               safe_forall([i], z3.Implies(z3.And(0 <= i, i < nn, gi), e.rk(i) == e.cb(i)), [e.rk(i)], None)]
+        return ax
+
+    def instance(self, ctx, fn):
+        """The enumeration obtained by substituting (e.g. a loop index) inside this one; its axioms are instances of
+        facts already assumed for every value of the substituted index, so they are assumed as well; it takes part in
+        the uniqueness linking like any other enumeration."""
+        p = z3.Int("p!inst")
+        e2 = Enum()
+        e2.n = fn(self.n) if is_z3(self.n) else self.n
+        e2.g = lambda i, s_=self: z3.substitute(fn(zbool(s_.g(p))), (p, zint(i)))
+        e2.cnt = fn(self.cnt)
+        e2.idx = lambda j, s_=self: z3.substitute(fn(s_.idx(p)), (p, zint(j)))
+        e2.rk = lambda j, s_=self: z3.substitute(fn(s_.rk(p)), (p, zint(j)))
+        e2.cb = lambda j, s_=self: z3.substitute(fn(s_.cb(p)), (p, zint(j)))
+        cache = ctx.__dict__.setdefault(Enum.cache_attr, {})
+        k0 = z3.Int("k!enum")
+        key = canon_str(z3.simplify(z3.And(in_range(k0, e2.n), zbool(e2.g(k0)))))
+        if key in cache:
+            ex, pos, first = cache[key]
+            if pos is None or (pos < len(ctx.assumptions) and ctx.assumptions[pos] is first):
+                return ex if ex.cnt.eq(e2.cnt) else e2
+        ax = e2.axioms()
+        pos = len(ctx.assumptions)
+        ctx.assumptions.extend(ax)
+        cache[key] = (e2, pos, ax[0])
+        Enum.link_equivalent(ctx, e2, cache)
+        return e2
 
     @staticmethod
     def link_split(ctx, total, A, B, g_left, g_right):
@@ -688,9 +722,12 @@ class Enum:
                 continue
             if pos is not None and not (pos < len(ctx.assumptions) and ctx.assumptions[pos] is first):
                 continue
-            same = z3.And(zint(e1.n) == zint(e.n),
-                          z3.Implies(in_range(kf, e.n), zbool(e1.g(kf)) == zbool(e.g(kf))))
-            if ctx.valid(same, 4000):
+            # cheap pre-filter: the two ranges must be provably equal
+            n_eq = z3.simplify(zint(e1.n) == zint(e.n))
+            if z3.is_false(n_eq) or not ctx.valid(n_eq, 600):
+                continue
+            same = z3.Implies(in_range(kf, e.n), zbool(e1.g(kf)) == zbool(e.g(kf)))
+            if ctx.valid(same, 2500):
                 j, i = z3.Ints("j!ax i!ax")
                 ctx.assumptions.append(e1.cnt == e.cnt)
                 ctx.assumptions.append(z3.ForAll([j], e1.idx(j) == e.idx(j), patterns=[e1.idx(j)]))
@@ -699,9 +736,8 @@ class Enum:
                 ctx.assumptions.append(z3.ForAll([i], e1.rk(i) == e.rk(i), patterns=[e.rk(i)]))
                 ctx.used_models.add("meta-lemma: increasing enumerations of equivalent predicates over one range coincide")
                 continue
-            compl = z3.And(zint(e1.n) == zint(e.n),
-                           z3.Implies(in_range(kf, e.n), zbool(e1.g(kf)) == z3.Not(zbool(e.g(kf)))))
-            if ctx.valid(compl, 4000):
+            compl = z3.Implies(in_range(kf, e.n), zbool(e1.g(kf)) == z3.Not(zbool(e.g(kf))))
+            if ctx.valid(compl, 2500):
                 # complementary predicates: the two enumerations partition the range (counting, by induction on i)
                 i = z3.Int("i!ax")
                 nn = zint(e.n)
@@ -713,6 +749,8 @@ class Enum:
 
 def safe_forall(vars_, body, patterns, fallback):
     for pats in (patterns, fallback):
+        if not pats:
+            continue
         try:
             return z3.ForAll(vars_, body, patterns=pats)
         except z3.Z3Exception:
@@ -735,6 +773,30 @@ def forall(vars_, body, patterns=None):
     except z3.Z3Exception:
         pass
     return z3.ForAll(vars_, body)
+
+
+_COMMUTATIVE = {z3.Z3_OP_AND, z3.Z3_OP_OR, z3.Z3_OP_EQ, z3.Z3_OP_DISTINCT, z3.Z3_OP_ADD, z3.Z3_OP_MUL, z3.Z3_OP_IFF}
+
+
+def canon_str(t, _memo=None):
+    """Textual form of a term that does not depend on z3's (id-based, unstable) ordering of the arguments of
+    commutative operators."""
+    if _memo is None:
+        _memo = {}
+    i = t.get_id()
+    if i in _memo:
+        return _memo[i]
+    if z3.is_quantifier(t):
+        r = ("Q" + ("A" if t.is_forall() else "E" if t.is_exists() else "L") + str(t.num_vars()) + "(" + canon_str(t.body(), _memo) + ")")
+    elif z3.is_app(t) and t.num_args() > 0:
+        parts = [canon_str(c, _memo) for c in t.children()]
+        if t.decl().kind() in _COMMUTATIVE:
+            parts.sort()
+        r = t.decl().name() + "(" + ",".join(parts) + ")"
+    else:
+        r = t.sexpr()
+    _memo[i] = r
+    return r
 
 
 def occurs(const, term):
